@@ -35,6 +35,22 @@ atom, tuple_pat, tuple_val = pm.atom, pm.tuple_pat, pm.tuple_val
 _BaseParser, _BaseFn = pm.Parser, pm.FnTranslator      # (the module attributes are swapped while a unit of this module is translated)
 
 
+class TRevCyc(pm.Ty):
+    """the column reader `Chain<Rev<Iter>, Cycle<Rev<Iter>>>` of the traceback handlers: `Rs.RevCyc elem`"""
+
+    def __init__(self, elem):
+        self.elem = elem
+
+    def lean(self):
+        return "Rs.RevCyc " + pm.paren_ty(self.elem.lean())
+
+    def __eq__(self, o):
+        return isinstance(o, TRevCyc) and o.elem == self.elem
+
+    def __repr__(self):
+        return "RevCyc<%r>" % (self.elem,)
+
+
 # ================================================================================================== parser
 
 class ParserL(_BaseParser):
@@ -105,7 +121,7 @@ class FnL(_BaseFn):
 
     def recv_lookup(self, name, code, node):
         """lean text of the receiver field `root.f`"""
-        root, fld = name.split(".", 1)
+        root, fld = name.rsplit(".", 1)
         for sc in reversed(self.scopes):
             if name in sc:
                 return sc[name].lean
@@ -126,7 +142,7 @@ class FnL(_BaseFn):
         outs, posts = [], []
         whole = None
         for a in f.get("recv_outs", []):
-            root, fld = a.split(".", 1)
+            root, fld = a.rsplit(".", 1)
             if any(a in sc for sc in self.scopes):
                 outs.append(self.lookup(a, node).lean)
             else:
@@ -175,7 +191,7 @@ class FnL(_BaseFn):
     def _call_assigned(self, ckey, args, decl, out):
         _BaseFn._call_assigned(self, ckey, args, decl, out)
         for a in self.calls[ckey].get("recv_outs", []):
-            nm = a if any(a in sc for sc in self.scopes) or a.split(".")[0] in self.local_struct_roots else a.split(".")[0]
+            nm = a if any(a in sc for sc in self.scopes) or a.split(".")[0] in self.local_struct_roots else a.rsplit(".", 1)[0]
             if nm not in decl and nm.split(".")[0] not in decl and nm not in out:
                 out.append(nm)
 
@@ -193,6 +209,14 @@ class FnL(_BaseFn):
     def _expr_calls_assigned(self, e, decl, out):
         _BaseFn._expr_calls_assigned(self, e, decl, out)
         for x in pm.all_nodes(e):
+            r = None
+            if x.kind == "mcall" and x.name == "next" and not x.args and x.recv.kind in ("var", "field"):
+                r = self._lhs_root(x.recv)
+            if x.kind == "call" and x.path == ["replace"] and len(x.args) == 2 and x.args[0].kind == "un":
+                r = self._lhs_root(x.args[0].e)
+            if r is not None and r not in decl and r not in out and r.split(".")[0] not in decl:
+                out.append(r)
+        for x in pm.all_nodes(e):
             if x.kind == "mcall" and pm.method_key(x) not in self.calls and self.recv_key(x) is not None:
                 self._call_assigned(self.recv_key(x), x.args, decl, out)
 
@@ -203,7 +227,7 @@ class FnL(_BaseFn):
                 if "self." + a not in out:
                     out.append("self." + a)
             for a in f.get("recv_args", []):
-                nm = a if a.split(".")[0] in self.local_struct_roots else a.split(".")[0]
+                nm = a if a.split(".")[0] in self.local_struct_roots else a.rsplit(".", 1)[0]
                 if nm not in out:
                     out.append(nm)
             for a in n.args:
@@ -242,6 +266,30 @@ class FnL(_BaseFn):
             t2 = self.tmp()
             code.bind(t2, ("call", "Rs.expect (Rs.minByKeySnd %s)" % t1))
             return t2, self.ty_of_text(d["item"])
+        if e.name == "count_ones" and not e.args:
+            x, xt = self.expr(e.recv, code)
+            if not isinstance(xt, TInt) or xt.signed:
+                self.err("`.count_ones()` on %r" % (xt,), e)
+            return "Rs.popcountW %s %s" % (xt.w, atom(x)), TInt("u32")
+        if e.name == "chain" and len(e.args) == 1:
+            # `xs[..=pos].iter().rev().chain(xs.iter().rev().cycle())`
+            a, b = e.recv, e.args[0]
+            ok = (a.kind == "mcall" and a.name == "rev" and a.recv.kind == "mcall" and a.recv.name == "iter"
+                  and a.recv.recv.kind == "index" and a.recv.recv.idx.kind == "range" and a.recv.recv.idx.lo is None
+                  and a.recv.recv.idx.incl and b.kind == "mcall" and b.name == "cycle" and b.recv.kind == "mcall"
+                  and b.recv.name == "rev" and b.recv.recv.kind == "mcall" and b.recv.recv.name == "iter")
+            if not ok:
+                self.err("`.chain(..)` other than `xs[..=pos].iter().rev().chain(xs.iter().rev().cycle())`", e)
+            x1, t1 = self.expr(a.recv.recv.base, code)
+            x2, t2 = self.expr(b.recv.recv.recv, code)
+            if x1 != x2 or not isinstance(t1, TSeq):
+                self.err("`.chain(..)`: the two parts do not read the same slice", e)
+            ps, pt = self.expr(a.recv.recv.idx.hi, code, TInt("usize"))
+            if pt != TInt("usize"):
+                self.err("slice bound of type %r" % (pt,), e)
+            t = self.tmp()
+            code.bind(t, ("call", "Rs.rcNew %s %s" % (atom(x1), atom(ps))))
+            return t, TRevCyc(t1.elem)
         if e.name == "and_then" and len(e.args) == 1 and e.args[0].kind == "getclosure":
             # `opt.and_then(|m| m.get(&k))` on an `Option<&HashMap<K, Vec<V>>>`
             r, rt = self.expr(e.recv, code)
@@ -309,7 +357,30 @@ class FnL(_BaseFn):
             return
         return _BaseFn.let(self, s, code)
 
+    def iter_next(self, it_expr, code, node):
+        """`it.next()` on a `RevCyc` variable / `self` field: the iterator is advanced (the variable re-bound); returns the
+        lean name of the `Option` drawn and the element type"""
+        root = self._lhs_root(it_expr)
+        v = self.lookup(root, node)
+        if not isinstance(v.ty, TRevCyc):
+            self.err("`.next()` on %r" % (v.ty,), node)
+        o = self.tmp()
+        code.let("(%s, %s)" % (o, v.lean), "Rs.rcNext %s" % v.lean)
+        return o, v.ty.elem
+
     def expr(self, e, code, expected=None):
+        if e.kind == "un" and e.op == "*" and e.e.kind == "mcall" and e.e.name == "unwrap" and not e.e.args \
+                and e.e.recv.kind == "mcall" and e.e.recv.name == "next" and not e.e.recv.args:
+            o, et = self.iter_next(e.e.recv.recv, code, e)
+            t = self.tmp()
+            code.bind(t, ("call", "Rs.expect %s" % o))
+            return t, et
+        if e.kind == "struct":
+            e.fields = [(f, x) for f, x in e.fields if not (x.kind == "var" and x.name == "PhantomData")]
+        if e.kind == "field" and e.e.kind in ("field", "mcall", "call") and pm.self_path(e) is None:
+            b, bt = self.expr(e.e, code)
+            if isinstance(bt, TStruct) and e.name in bt.fields:
+                return "%s%s" % (atom(b), bt.proj(e.name)), bt.items[bt.fields.index(e.name)]
         if e.kind == "sizeof":
             if e.targ not in self.word_types:
                 self.err("`size_of::<%s>()` of a type the spec does not know" % e.targ, e)
@@ -321,6 +392,8 @@ class FnL(_BaseFn):
         return _BaseFn.expr(self, e, code, expected)
 
     def ty(self, t):
+        if t.kind not in ("tref", "tslice", "ttuple") and t.name == "RevCyc" and len(t.args) == 1:
+            return TRevCyc(self.ty(t.args[0]))
         if t.kind not in ("tref", "tslice", "ttuple") and t.name == "HashMap" and len(t.args) == 2:
             # `HashMap<K, V>`: its entry list (at most one entry per key); `get` = `Rs.hmGet`
             return TSeq(TTuple([self.ty(t.args[0]), self.ty(t.args[1])]))
@@ -384,6 +457,19 @@ class FnL(_BaseFn):
             return _BaseFn.translate(self, toks)
         finally:
             pm.lean_name = old
+
+    def call(self, e, code, expected):
+        if e.path == ["replace"] and len(e.args) == 2 and e.args[0].kind == "un" and e.args[0].op == "&mut":
+            # `std::mem::replace(&mut place, value)`: the old value; `place` gets `value`
+            v = self.lookup(self._lhs_root(e.args[0].e), e)
+            val, vt = self.expr(e.args[1], code, v.ty)
+            if vt != v.ty:
+                self.err("`replace` of %r by %r" % (v.ty, vt), e)
+            old = self.tmp()
+            code.let(old, v.lean)
+            code.let(v.lean, val)
+            return old, v.ty
+        return _BaseFn.call(self, e, code, expected)
 
     def macro(self, e, code, expected):
         if e.name == "vec" and not e.args:
@@ -710,6 +796,36 @@ unit(name="SrcMyersTbShort", props="property C10", file="src/pattern_matching/my
                      within="impl<'a, T> TracebackHandler<'a, T, T::DistType> for ShortTracebackHandler<'a, T> where T: BitVec + 'a,",
                      qualified_fields=TB_Q, self_fields=TB_H, params=[], ret="T",
                      theorem="RbV.Thm.GenSrcMyersTb.finished_eq_model")])
+
+
+
+# ---- traceback, second part: `adjust_by_mask`, `ShortTracebackHandler::{new, move_to_left}` -----------------------------------
+# the column reader `states_iter` is a `Rs.RevCyc State`; here the handler's `state` / `left_state` are held as whole `State` values
+TB_IMPL = "impl<'a, T> TracebackHandler<'a, T, T::DistType> for ShortTracebackHandler<'a, T> where T: BitVec + 'a,"
+TB_H2 = [("state", "State"), ("left_state", "State"), ("states_iter", "RevCyc<State>"), ("max_mask", "T"), ("pos_bitvec", "T"),
+         ("left_mask", "T")]
+unit(name="SrcMyersTbMask", props="property C10", file="src/pattern_matching/myers/myers_impl.rs",
+     imports=["RbV.Basic.RsSemWord", "RbV.Basic.RsSemGenlong"], word_types=pm.MYERS_WORDS, type_paths=pm.MYERS_PATHS,
+     structs=pm.MYERS_STRUCTS,
+     functions=[dict(name="State::adjust_by_mask", lean="adjustByMask", header="pub fn adjust_by_mask(&mut self, mask: T)",
+                     self_fields=[("pv", "T"), ("mv", "T"), ("dist", "D")], params=[("mask", "T")], ret=None,
+                     theorem="RbV.Thm.GenSrcMyersTb2.adjustByMask_eq_model")])
+
+unit(name="SrcMyersTbShort2", props="property C10", file="src/pattern_matching/myers/simple.rs",
+     imports=["RbV.Basic.RsSemWord", "RbV.Basic.RsSemGenlong", "RbV.Gen.SrcMyersTbMask"], word_types=pm.MYERS_WORDS,
+     type_paths=pm.MYERS_PATHS, structs=pm.MYERS_STRUCTS,
+     functions=[dict(name="ShortTracebackHandler::new", lean="new",
+                     header="fn new(m: T::DistType, pos: usize, states: &'a [State<T, T::DistType>]) -> Self",
+                     params=[("m", "DistType"), ("pos", "usize"), ("states", "&[State]")],
+                     ret="(State, State, RevCyc<State>, T, T, T)", struct_fields={"ShortTracebackHandler": TB_H2},
+                     theorem="RbV.Thm.GenSrcMyersTb2.new_eq_model"),
+                dict(name="ShortTracebackHandler::move_to_left", lean="moveToLeft", header="fn move_to_left(&mut self)",
+                     within=TB_IMPL, self_fields=TB_H2, params=[], ret=None,
+                     calls={"self.left_state.adjust_by_mask": dict(
+                         lean="RbV.Gen.SrcMyersTbMask.adjustByMask", extra=["w", "wd"],
+                         recv_args=["self.left_state.pv", "self.left_state.mv", "self.left_state.dist"],
+                         recv_outs=["self.left_state.dist"], args=["T"], ret=None)},
+                     theorem="RbV.Thm.GenSrcMyersTb2.moveToLeft_eq_model")])
 
 
 # ================================================================================================== self-test / CLI
